@@ -54,7 +54,7 @@ func buildPlan(id string, pinned map[string]string, tier string) *Plan {
 		p.Trusted = []string{"pinned moduli in /verif/contracts/params.json", "axiomatic semantics of encoding/binary big/little-endian accessors"}
 		p.Trusted = append(p.Trusted, "AsyncReadFrom: the go statement is executed as a call where the goroutine is started, execute(n, work) as work(0, n) (independence of the iterations assumed), the channel is an opaque object whose sends and closes are events (blocking and the receiving side are not modelled), the unsafe byte view of the vector is a separate slice with arbitrary contents (nothing is said about the contents of the vector)")
 		p.Trusted = append(p.Trusted, "SetString: the parser of math/big (big.Int.SetString with base 0) is a pair of uninterpreted functions of the characters (accepts / value); Element.SetBigInt enters through its contract (z = v mod q), which is proved in the same group: SetBigInt / setBigInt with big.Int.Bits as the normalised little-endian word slice of |v| (documented meaning of math/big), big.Int.Mod as SMT-LIB's mod, the modulus read off the package initialiser; the big.Int pool is an opaque call")
-		p.NotCovered = []string{"SetBytes / BigInt / Text / JSON (math/big, strconv): not under contract", "Vector AsyncReadFrom: that the elements stored are the decoded values, the byte counter and the interleavings of its goroutines are not under contract (its index safety, its error reporting and the closing of its channel are); Vector MarshalBinary / UnmarshalBinary: not under contract; of ReadFrom / WriteTo the decoded values are not stated (the reader is opaque), only acceptance-implies-check and the byte counts"}
+		p.NotCovered = []string{"Text / String / JSON marshalling (math/big.Text, strconv): not under contract (SetBytes, BigInt / toBigInt and SetBigInt are)", "Vector AsyncReadFrom: that the elements stored are the decoded values, the byte counter and the interleavings of its goroutines are not under contract (its index safety, its error reporting and the closing of its channel are); Vector MarshalBinary / UnmarshalBinary: not under contract; of ReadFrom / WriteTo the decoded values are not stated (the reader is opaque), only acceptance-implies-check and the byte counts"}
 		p.Note = "Canonical byte decoders accept exactly encodings below q; encoders and decoders are mutually inverse (lemma functions verified from the two contracts); integer setters produce the residue mod q; comparisons act on the regular value; SetString accepts exactly the strings math/big accepts in base 0, sets the residue mod q of the integer they denote, and otherwise returns (nil, error) with z untouched. Vector.ReadFrom returns nil only if the length prefix and every element buffer were read completely and every element decoder accepted its buffer, and then reports 4 + Bytes*len bytes; Vector.WriteTo returns nil only if every write succeeded, and then reports 4 + Bytes*len bytes. Vector.AsyncReadFrom (23 fields, portable build): for every reader and every announced length neither the function nor its conversion goroutine indexes or slices out of range (the byte view of the payload has Bytes bytes per element visited: the obligation that failed on the pinned tree, finding F40), an element that is not below the modulus is counted and a non-nil error is then sent on the channel, a synchronous error is never followed by a send, and the channel is closed exactly once; execute, the field packages' copy of parallel.Execute, hands its goroutines contiguous ranges that partition [0, n)."
 		return p
 	case "C02":
@@ -198,7 +198,7 @@ func buildPlan(id string, pinned map[string]string, tier string) *Plan {
 		p.Units = append(p.Units, Unit{Pkg: "./fiat-shamir", Tags: "", Groups: []string{"transcript"}})
 		p.Trusted = []string{"interface hash.Hash (assumed contracts): Write does not retain its argument, Sum(nil) returns a newly allocated slice",
 			"option functional-nested-slices: the rows of the list of bound values are functions of the row index (ComputeChallenge only reads them)", "escape analysis of the VC generator: an argument slice counts as retained when it (or a local object holding it) is stored into memory reachable after the call"}
-		p.NotCovered = []string{"the map of challenges is not modelled as a store: what NewTranscript and Bind PUT into it is under contract (map updates are events cuts anchor on: the initial records have position i, nil bindings, nil value and are not computed; the record Bind stores back is the record it read with exactly one more binding, same position, not computed), but that the record ComputeChallenge reads is the one Bind wrote, the bytes of the binding stored, and 'recomputing returns the same bytes' are not under contract (what ComputeChallenge hashes from the record it reads is)",
+		p.NotCovered = []string{"the map of challenges is not modelled as a store: what NewTranscript and Bind PUT into it is under contract (map updates are events cuts anchor on: the initial records have position i, nil bindings, nil value and are not computed; the record Bind stores back is the record it read with exactly one more binding, same position, not computed), and ComputeChallenge stores back a computed record whose value is a copy of the digest returned and answers a recomputation with a fresh copy of the value of the record it reads), but that the record ComputeChallenge reads is the one that was written, the bytes of the binding stored, and 'recomputing returns the same bytes' are not under contract (what ComputeChallenge hashes from the record it reads is)",
 			"'errors leave the transcript unchanged' is only covered as far as the error paths return before any update (guards), not as a frame condition on the map"}
 		p.Note = "Bind: unknown / already computed challenges are refused with the documented errors, the bound slice is copied (the argument is never retained). ComputeChallenge: unknown challenge refused; a challenge at position > 0 is computed only if the previously computed challenge is its immediate predecessor; every returned slice is freshly allocated (not aliased with transcript state); the order pointer (t.previous) is left where it was by a recomputation and by every refused call, and advances to a record of the computed position otherwise; the writes made to the hash before the digest is taken are, in order, the bytes of the name, the previous challenge's value when the position is not 0, and every bound value of the record in binding order (none skipped, none repeated), and the digest returned is the result of Sum(nil) taken after exactly these writes."
 		return p
@@ -242,7 +242,7 @@ func buildPlan(id string, pinned map[string]string, tier string) *Plan {
 		p.Trusted = []string{"ring layer over fr.Element (C01 contracts)", "published Poseidon2 matrices for widths 2 and 3 and S-box degree per curve", "documented MiMC instances: exponent and number of rounds per curve (gcv/gen_tower.go mimcParams)",
 			"the round-constant table is a fixed array (its derivation from Keccak is not under contract)"}
 		p.Trusted = append(p.Trusted, "Merkle-Damgard wrapper: assumed contracts of the Compressor interface (positive block size; Compress reads its arguments, keeps and writes none of them, returns a slice it allocated)")
-		p.NotCovered = []string{"Poseidon2 permutations and wrappers, what the ring-SIS hash computes (limb decomposition, sum of negacyclic products: only the guards, the zeroing, the final reduction call and the frame of RSis.Hash of koalabear and babybear are under contract, portable build), registration (RegisterHash / New / the imports of hash/all), Reset / Size / BlockSize of the Merkle-Damgard wrapper: not under contract",
+		p.NotCovered = []string{"Poseidon2 permutations and wrappers, what the ring-SIS hash computes (limb decomposition, sum of negacyclic products: only the guards, the zeroing, the final reduction call and the frame of RSis.Hash of koalabear and babybear are under contract, portable build), registration (RegisterHash / New / the imports of hash/all): not under contract (Reset / Size / BlockSize of the Merkle-Damgard wrapper are)",
 			"MiMC round-constant derivation (sha3): not under contract", "digest.Reset / WriteString / State: not under contract"}
 		p.Note = "MiMC: encrypt is the documented number of rounds of x -> (x + k + c_i)^d followed by + k (recursive specification, loop invariant); checksum is the Miyaguchi-Preneel fold over the absorbed blocks; Write never slices its input beyond len(p) (strict slice obligations), accepts only whole blocks (or one short left-padded block) and reports the bytes it consumed, keeps every block absorbed by earlier writes (in order, whatever the outcome of this one) and adds exactly the blocks it reports; SetState and Sum flush the pending blocks. Merkle-Damgard Write: every block handed to the compression function is the next block-size bytes of the input (the same window, unchanged) or, for a short remainder, a buffer of exactly one block holding zeros followed by the remaining bytes; the chaining value handed over is the current state. Its Sum appends a copy of the state to its argument and leaves the hasher unchanged (hash.Hash); State returns a copy; SetState and the constructor copy the slice they are given (no slice held by a caller is kept or handed out). Small-field Poseidon2 (koalabear, babybear, goldilocks): Compress accepts only two inputs of half a state each, and (lemma function) these are the sizes BlockSize reports, as the Compressor interface promises. The registry's Hash.Size reports, for each of its 19 hashes, the digest size computed from the pinned modulus of the scalar field (one element) resp. from the published small-field parameters (half a state)."
 		return p
@@ -330,10 +330,10 @@ func buildPlan(id string, pinned map[string]string, tier string) *Plan {
 	case "C12":
 		p := &Plan{ID: id}
 		for _, pk := range ecdsaRecoverPkgs("/repo") {
-			p.Units = append(p.Units, Unit{Pkg: pk, Tags: "", Groups: []string{"ecdsa", "ecdsarecover"}})
+			p.Units = append(p.Units, Unit{Pkg: pk, Tags: "", Groups: []string{"ecdsa", "ecdsarecover", "ecdsakeys"}})
 		}
 		for _, pk := range ecdsaPlainPkgs("/repo") {
-			p.Units = append(p.Units, Unit{Pkg: pk, Tags: "", Groups: []string{"ecdsa", "ecdsasign"}})
+			p.Units = append(p.Units, Unit{Pkg: pk, Tags: "", Groups: []string{"ecdsa", "ecdsasign", "ecdsakeys"}})
 		}
 		for _, pk := range eddsaPkgs("/repo") {
 			p.Units = append(p.Units, Unit{Pkg: pk, Tags: "", Groups: []string{"eddsa"}})
@@ -343,7 +343,7 @@ func buildPlan(id string, pinned map[string]string, tier string) *Plan {
 			"scalar multiplications, point addition, on-curve tests, HashToInt and the hash object are opaque calls: their arguments and results are captured at the call site; setter-style methods write only their receiver; chained methods return their receiver",
 			"Element.BigInt / SetBigInt are the (uninterpreted) bijection between ring elements and integers at the ring layer"}
 		p.NotCovered = []string{"completeness (every honest signature verifies): needs the group law over scalar multiplication (C03), not under contract",
-			"GenerateKey, nonce derivation (the nonce is whatever randFieldElement returned), the recovery id computed by SignForRecover, public-key recovery beyond the x-coordinate of the commitment, the layout of the bytes EdDSA Sign returns (padding of s, Bytes of the signature) and its nonce derivation (BLAKE2b: an opaque call), the key encoders (Bytes) and the round trip, the signature.Signer interfaces: not under contract",
+			"GenerateKey, nonce derivation (the nonce is whatever randFieldElement returned), the recovery id computed by SignForRecover, public-key recovery beyond the x-coordinate of the commitment, the layout of the bytes EdDSA Sign returns (padding of s, Bytes of the signature) and its nonce derivation (BLAKE2b: an opaque call), the EdDSA key encoders and the round trip of keys as a theorem (the ECDSA key encoders Bytes are under contract: the point's own encoding followed by the scalar bytes), the signature.Signer interfaces: not under contract",
 			"EdDSA Verify: the byte encodings of the coordinates that are hashed are the results of opaque Bytes() calls on R.X, R.Y, A.X, A.Y (which coordinate, in which order, is under contract; the encoding itself is the C08 contract of Bytes); the curve order is the value returned by GetEdwardsCurve (not compared with a pinned constant)"}
 		p.Note = "ECDSA: Signature.SetBytes accepts exactly the 2*sizeFr-byte strings with 0 < r, s < n (both directions) and stores them unchanged; Verify refuses (false) on every decoding error, and on acceptance of the encoding returns exactly [ (x(U) mod n) == r ] for the U produced by the joint scalar multiplication called on the public key with u1 = m*s^-1 mod n and u2 = r*s^-1 mod n, m = HashToInt(...) applied to the message itself when no hash is given and to the slice the hash returned otherwise (the textbook equation with the scalar multiplication opaque); Sign (SignForRecover + Sign on the 3 curves with recovery) returns a signature only if r = x(P) mod n != 0 for P the base-point multiple of the drawn nonce k, s = k^-1 (m + r d) mod n != 0 with d the big-endian integer of the private key and m = HashToInt of the message or of the digest, 0 < r, s < n, and the bytes returned are those of (r, s); recoverP accepts only 0 < r < n and sets x = r + n*bit1(v). EdDSA: Signature.SetBytes accepts only strings of 2*sizeFr bytes with 0 < y(R) < q after clearing the sign bit (mask recomputed from the pinned modulus), 0 < S < order, and R decoded by the point decoder and on the curve; Verify requires a hash, the key on the curve, decodes the signature through that contract, and returns exactly the comparison of [cofactor][S]Base with [cofactor](R + [H]A) computed by the (opaque) point operations in that order on those operands, both results tested on the curve. Key decoders of both schemes (PublicKey.SetBytes, PrivateKey.SetBytes): total on every buffer (crypto/subtle's length requirement is an obligation), refuse exactly the buffers shorter than the key, accept only if the point decoder accepted the leading bytes (EdDSA: and the point is on the curve), report the size of the key as the bytes consumed, and copy the secret scalar (EdDSA: and the randomness) from the following bytes unchanged. EdDSA Sign: R = blind*Base with blind read from the first sizeFr bytes of the BLAKE2b-512 digest and R on the curve; H(R, A, M) over exactly the encodings of R.X, R.Y, A.X, A.Y and the message in this order after a Reset; the value reduced into the signature is (hram*scalar + blind) mod Order with scalar read from privKey.scalar (the order is positive: assumed contract of GetEdwardsCurve). EdDSA Verify hashes, after a Reset, exactly the encodings of R.X, R.Y, A.X, A.Y and then the message, in this order (five writes, checked before every Write), takes the digest after exactly these writes and uses that digest - and nothing else - as the scalar that multiplies the public key."
 		return p
@@ -359,14 +359,14 @@ func buildPlan(id string, pinned map[string]string, tier string) *Plan {
 			p.Units = append(p.Units, Unit{Pkg: u.Pkg, Tags: "", Groups: u.Groups, Deps: u.Deps})
 		}
 		p.Trusted = []string{"assumed contracts of hash.Hash as returned by sha256.New (digest size 32, block size 64, Write never fails and reports len(p), Sum appends one digest)",
-			"sha256.New, the big.Int pool, big.Int.SetBytes and Element.SetBigInt are opaque calls in Hash (their results are arbitrary; setter-style methods write their receiver only)",
+			"sha256.New, the big.Int pool and Element.SetBigInt are opaque calls in Hash (setter-style methods write their receiver only; what SetBigInt computes is its own contract, proved under C08); big.Int.SetBytes is the big-endian value of its argument (documented meaning of math/big)",
 			"fp.Element.Bits is used through its contract (proved under C08); reg(v) is the integer denoted by a Montgomery representation"}
 		p.Assumptions = []string{"Hash: 0 <= count <= 2^32 (count*L does not wrap; a wrapping count would pass the length test and reach make with a huge length)",
 			"loop-carried digest slices of ExpandMsgXmd are fresh allocations (option fresh-loop-slices: every value assigned is a result of Sum(nil))"}
 		p.NotCovered = []string{"how the digests of expand_message_xmd are assembled into the output and the reduction of each block modulo q are not under contract (what is hashed for b_0, b_1, b_i is; SHA-256 itself and math/big are outside)",
 			"MapToCurve (SvdW / SSWU), the isogenies, cofactor clearing, HashToG1/G2, EncodeToG1/G2: not under contract (is_square / sqrt case analysis is number theory at the ring layer)",
 			"RFC test vectors: a test-suite matter, not a contract"}
-		p.Note = "expand_message_xmd is total (every slice, index and allocation is a discharged obligation for every message, DST and length), returns exactly lenInBytes bytes, and returns an error exactly when the parameters are inadmissible (length outside 0..255*32 or DST longer than 255 bytes), and hashes exactly what RFC 9380 5.3.1 prescribes: b_0 = H(64 zero bytes || msg || I2OSP(len_in_bytes, 2) || 0 || DST || len(DST)), b_1 = H(b_0 || 1 || DST || len(DST)), b_i = H(strxor(b_0, b_(i-1)) || i || DST || len(DST)), each digest taken after a Reset and exactly these writes (a ghost automaton checked before every Write), max(ell, 1) + 1 digests in all; Hash (hash_to_field) of every field returns exactly count elements, is total, and refuses exactly the inadmissible parameters with L = 16 + ceil(bits/8) recomputed from the pinned modulus; the sgn0 helpers return the parity of the integer denoted by the element (for Fp2: of x0, or of x1 when x0 = 0), and the NotZero helpers are zero exactly for the zero element."
+		p.Note = "expand_message_xmd is total (every slice, index and allocation is a discharged obligation for every message, DST and length), returns exactly lenInBytes bytes, and returns an error exactly when the parameters are inadmissible (length outside 0..255*32 or DST longer than 255 bytes), and hashes exactly what RFC 9380 5.3.1 prescribes: b_0 = H(64 zero bytes || msg || I2OSP(len_in_bytes, 2) || 0 || DST || len(DST)), b_1 = H(b_0 || 1 || DST || len(DST)), b_i = H(strxor(b_0, b_(i-1)) || i || DST || len(DST)), each digest taken after a Reset and exactly these writes (a ghost automaton checked before every Write), max(ell, 1) + 1 digests in all; Hash (hash_to_field) of every field returns exactly count elements, is total, refuses exactly the inadmissible parameters with L = 16 + ceil(bits/8) recomputed from the pinned modulus, and sets element i - once, by SetBigInt - from the big-endian integer of the i-th window of L bytes of what ExpandMsgXmd returned (checked before every call); the sgn0 helpers return the parity of the integer denoted by the element (for Fp2: of x0, or of x1 when x0 = 0), and the NotZero helpers are zero exactly for the zero element."
 		return p
 	case "C20":
 		p := &Plan{ID: id}
